@@ -9,9 +9,9 @@ Structure of the argument:
   C. the local walk of one entry only touches the child with that entry's name (`applyChild`), and updates of children
      with different names commute; hence the local walk is invariant under `FPerm`.
 -/
-import Sqfs.Proofs.FsTree
+import Sqfs.Proofs.C11Pinned.Order
 
-namespace Sqfs.FsTree
+namespace Sqfs.C11Pinned
 
 /-! ### child lists: `childByName`, `replaceChild`, `insertBy` -/
 
@@ -1272,4 +1272,4 @@ theorem fperm_nativeOrder (l : List HNode) : FPerm l (nativeOrder true l) := by
   simp only [nativeOrder, if_true]
   exact FPerm.trans (fperm_canonList l) (fperm_of_perm (sortByName_perm_self (canonList l)).symm)
 
-end Sqfs.FsTree
+end Sqfs.C11Pinned
